@@ -980,13 +980,17 @@ def determinism_worker(cases, wid, extra):
                 idirs += ["-I", os.path.join(root, d)]
             mains = list(cfg["mains"])
 
-            def run(order, hashseed, cwd, tag, alone=False, stale=None):
+            def run(order, hashseed, cwd, tag, alone=False, stale=None, same_length=False):
                 out = os.path.join(root, "o_" + tag)
                 os.makedirs(out)
                 for name, data in (stale or {}).items():
-                    # an output directory that still holds longer files of an earlier run
                     with open(os.path.join(out, name), "wb") as fh:
-                        fh.write(data + b"\n// left over from an earlier, longer revision\n" * 20)
+                        if same_length:
+                            # ... or files of exactly the new length and other content (a length-preserving edit)
+                            fh.write(bytes(data).swapcase())
+                        else:
+                            # an output directory that still holds longer files of an earlier run
+                            fh.write(data + b"\n// left over from an earlier, longer revision\n" * 20)
                 files = [paths[f] if cwd != "d0" else os.path.relpath(paths[f], os.path.join(root, "d0")) for f in order]
                 argv = files + idirs + ["--python_out", out, "--cpp_out", out, "--cpp_full_out", out, "--prophy_out", out]
                 rc, text = CL.run_cli(argv, cwd=os.path.join(root, cwd), env={"PYTHONHASHSEED": hashseed})
@@ -999,7 +1003,7 @@ def determinism_worker(cases, wid, extra):
             if rc != 0:
                 res["fails"].append(dict(basef, what="baseline run failed (rc=%s): %s" % (rc, text[-300:])))
                 continue
-            variants = [(mains, "0", "d0", "repeat"), (mains, "1", "d0", "seed1"), (mains, "2", "elsewhere", "seed2_cwd"),
+            variants = [(mains, "0", "d0", "repeat"), (mains, "0", "d0", "repeat_same_length"), (mains, "1", "d0", "seed1"), (mains, "2", "elsewhere", "seed2_cwd"),
                         (mains, "random", "d0", "seedrandom")]
             if len(mains) > 1:
                 res["nontrivial"] += 1
@@ -1007,7 +1011,8 @@ def determinism_worker(cases, wid, extra):
                 for k, p in enumerate(perms[:3]):
                     variants.append((p, str(k + 3), "elsewhere" if k % 2 else "d0", "order%d" % k))
             for order, hs, cwd, tag in variants:
-                rc, text, snap = run(order, hs, cwd, tag, stale=ref if tag == "repeat" else None)
+                rc, text, snap = run(order, hs, cwd, tag, stale=ref if tag.startswith("repeat") else None,
+                                     same_length=tag == "repeat_same_length")
                 if rc != 0:
                     res["fails"].append(dict(basef, what="run %s (order %r, PYTHONHASHSEED=%s, cwd=%s) failed: %s"
                                              % (tag, order, hs, cwd, text[-300:])))
